@@ -17,6 +17,7 @@ import traceback
 
 VERIF = os.path.dirname(os.path.dirname(os.path.abspath(__file__)))
 REPO = os.path.abspath(os.environ.get("VERIF_REPO", "/repo"))
+OUT = os.path.abspath(os.environ.get("VERIF_OUT", VERIF))      # where evidence/ and replays/ are written
 NPROC = int(os.environ.get("VERIF_NPROC", str(min(16, os.cpu_count() or 4))))
 
 _scratch_root = None
@@ -202,6 +203,8 @@ _NOZERO = bytes([1] + list(range(1, 256)))
 
 def content(seed, n):
     """Deterministic file content of n bytes without any 0x00 byte."""
+    if isinstance(seed, str) and seed.startswith("raw:"):
+        return seed[4:].encode()
     if n == 0:
         return b""
     return random.Random(f"content/{seed}").randbytes(n).translate(_NOZERO)
@@ -340,14 +343,14 @@ class Check:
             "wall_s": round(wall, 3),
             "violations": len(self.violations),
         }
-        os.makedirs(os.path.join(VERIF, "evidence"), exist_ok=True)
-        with open(os.path.join(VERIF, "evidence", f"{self.prop}.json"), "w") as fd:
+        os.makedirs(os.path.join(OUT, "evidence"), exist_ok=True)
+        with open(os.path.join(OUT, "evidence", f"{self.prop}.json"), "w") as fd:
             json.dump(ev, fd, indent=1, sort_keys=False)
             fd.write("\n")
         for fid, n in sorted(self.known_hits.items()):
             print(f"KNOWN-FINDING: property={self.prop} {fid}: {self.known[fid].get('what', '')} (seen {n}x)")
         if self.violations:
-            rdir = os.path.join(VERIF, "replays", self.prop)
+            rdir = os.path.join(OUT, "replays", self.prop)
             os.makedirs(rdir, exist_ok=True)
             shown = 0
             kinds = set()
